@@ -38,9 +38,16 @@ type job struct {
 	Entry  string `json:"entry"`  // eval | exec | path
 	K      int64  `json:"k"`      // cancellation point in interpreted operations; 0 = context already cancelled
 	Follow string `json:"follow"` // none | after | before (a further Eval after quiescence / before the gate is released)
+	Rep    int    `json:"rep,omitempty"` // repetition number (crowd programs are run several times: the schedule is the variable)
 }
 
+// kBlocked is a cancellation point no program reaches: the run is cancelled once every goroutine is blocked.
+const kBlocked = int64(1) << 40
+
 func (j job) id() string {
+	if j.Rep > 0 {
+		return fmt.Sprintf("%s/%s/k=blocked/follow=%s/rep=%d", programs[j.Prog].Name, j.Entry, j.Follow, j.Rep)
+	}
 	return fmt.Sprintf("%s/%s/k=%d/follow=%s", programs[j.Prog].Name, j.Entry, j.K, j.Follow)
 }
 
@@ -270,7 +277,9 @@ func runJob(j job) (res result) {
 		g.mu.Lock()
 		g.closed = true
 		g.mu.Unlock()
-		res.Reached, res.Blocked = true, true
+		// "blocked" is a statement about the goroutines, not about the clock: the Go runtime must
+		// report every goroutine inside the interpreter's run loop as waiting in a channel operation
+		res.Reached, res.Blocked = true, allInChanOps()
 		cancelAt = time.Now()
 		cancel()
 		select {
@@ -290,7 +299,7 @@ func runJob(j job) (res result) {
 	res.TicksBefore = g.ticksBefore
 	res.MainStarted = g.mainStarted
 	g.mu.Unlock()
-	ev(event{"e": "Returned", "err": errText, "latency_ms": r.at.Sub(cancelAt).Milliseconds(), "finished": finished})
+	ev(event{"e": "Returned", "err": errText, "latency_ms": r.at.Sub(cancelAt).Milliseconds(), "finished": finished, "blocked": res.Blocked})
 	follow := func() {
 		fd := make(chan error, 1)
 		go func() {
@@ -380,9 +389,35 @@ func runJob(j job) (res result) {
 	return res
 }
 
+// allInChanOps reports whether every goroutine inside the interpreter's run loop is waiting in a
+// channel operation (receive, send or select), as the Go runtime sees it.
+func allInChanOps() bool {
+	buf := make([]byte, 64<<20)
+	n := runtime.Stack(buf, true)
+	if n == len(buf) {
+		return false
+	}
+	seen := 0
+	for _, st := range strings.Split(string(buf[:n]), "\n\n") {
+		if !strings.Contains(st, "yaegi/interp.runCfg") || strings.Contains(st, "main.allInChanOps") {
+			continue
+		}
+		seen++
+		i, j := strings.IndexByte(st, '['), strings.IndexByte(st, ']')
+		if i < 0 || j < i {
+			return false
+		}
+		state := st[i+1 : j]
+		if !strings.HasPrefix(state, "chan receive") && !strings.HasPrefix(state, "chan send") && !strings.HasPrefix(state, "select") {
+			return false
+		}
+	}
+	return seen > 0
+}
+
 // interpGoroutines counts the goroutines that are inside the interpreter's run loop.
 func interpGoroutines() int {
-	buf := make([]byte, 1<<20)
+	buf := make([]byte, 64<<20)
 	n := runtime.Stack(buf, true)
 	c := 0
 	for _, st := range strings.Split(string(buf[:n]), "\n\n") {
@@ -420,16 +455,22 @@ func main() { fw.Main("C09", "model_checking", run) }
 // it is" or a candidate repair per code site; the expected outcome is pinned here, and
 // each counterexample names the known finding whose scenario must show on the real code.
 var designRuns = []struct {
+	module   string
 	cfg      string
 	what     string
 	violated bool
 	finding  string   // known finding the counterexample corresponds to
 	must     []string // action names the counterexample must contain, in order
 }{
-	{"RunId.A.cfg", "as is except run() inheriting the root id, 1 evaluation", true, "F-C09-1", []string{"EvalStart", "Cancel", "ExecuteStart", "Op", "Op"}},
-	{"RunId.B.cfg", "as is except no Execute after cancel, 1 evaluation", true, "F-C09-2", []string{"ExecuteStart", "Cancel", "RunInitOrMain", "Op", "Op"}},
-	{"RunId.C.cfg", "both candidate repairs, 1 evaluation", false, "", nil},
-	{"RunId.D.cfg", "both candidate repairs, 2 evaluations", true, "F-C09-3", []string{"Cancel", "EvalStart", "ExecuteStart", "Op", "Op"}},
+	{"RunId", "RunId.A.cfg", "as is except run() inheriting the root id, 1 evaluation", true, "F-C09-1", []string{"EvalStart", "Cancel", "ExecuteStart", "Op", "Op"}},
+	{"RunId", "RunId.B.cfg", "as is except no Execute after cancel, 1 evaluation", true, "F-C09-2", []string{"ExecuteStart", "Cancel", "RunInitOrMain", "Op", "Op"}},
+	{"RunId", "RunId.C.cfg", "both candidate repairs, 1 evaluation", false, "", nil},
+	{"RunId", "RunId.D.cfg", "both candidate repairs, 2 evaluations", true, "F-C09-3", []string{"Cancel", "EvalStart", "ExecuteStart", "Op", "Op"}},
+	// the two statements of stop() against goroutines blocked in channel operations: the order of the code
+	// holds; the other order lets a goroutine woken between the two statements go on in its caller (the
+	// scenario of the crowd programs of Blocking.tla), which shows that the invariant is not vacuous
+	{"Stop", "Stop.asis.cfg", "stop(): id incremented, then done closed (as is), 3 blocked goroutines", false, "", nil},
+	{"Stop", "Stop.swapped.cfg", "stop(): done closed, then id incremented", true, "", []string{"Stop1", "Wake", "Op"}},
 }
 
 var reAction = regexp.MustCompile(`(?m)^State \d+: <(\w+)`)
@@ -438,7 +479,7 @@ func designCheck(c *fw.Ctx) (map[string]bool, error) {
 	expectFinding := map[string]bool{}
 	var rows []map[string]any
 	for _, d := range designRuns {
-		res, err := c.TLC(fw.TLCOpts{Dir: "spec/sess", Module: "RunId", Cfg: d.cfg, Workers: 1, Timeout: 3 * time.Minute})
+		res, err := c.TLC(fw.TLCOpts{Dir: "spec/sess", Module: d.module, Cfg: d.cfg, Workers: 1, Timeout: 3 * time.Minute})
 		if err != nil {
 			return nil, err
 		}
@@ -447,7 +488,7 @@ func designCheck(c *fw.Ctx) (map[string]bool, error) {
 			acts = append(acts, m[1])
 		}
 		if (res.Violated != "") != d.violated {
-			return nil, fmt.Errorf("RunId.tla %s (%s): expected violated=%v, TLC says %q", d.cfg, d.what, d.violated, res.Violated)
+			return nil, fmt.Errorf("mechanism model %s (%s): expected violated=%v, TLC says %q", d.cfg, d.what, d.violated, res.Violated)
 		}
 		if d.violated {
 			j := 0
@@ -457,9 +498,11 @@ func designCheck(c *fw.Ctx) (map[string]bool, error) {
 				}
 			}
 			if j != len(d.must) {
-				return nil, fmt.Errorf("RunId.tla %s: counterexample %v does not contain %v", d.cfg, acts, d.must)
+				return nil, fmt.Errorf("mechanism model %s: counterexample %v does not contain %v", d.cfg, acts, d.must)
 			}
-			expectFinding[d.finding] = true
+			if d.finding != "" {
+				expectFinding[d.finding] = true
+			}
 		}
 		rows = append(rows, map[string]any{"cfg": d.cfg, "what": d.what, "violated": d.violated, "counterexample": acts, "finding": d.finding})
 	}
@@ -510,6 +553,20 @@ func run(c *fw.Ctx) error {
 				entries = append(entries, "path")
 			}
 			var ks []int64
+			if p.Crowd {
+				// a crowd blocked in a callee, released by one cancellation: the schedule is the variable
+				reps := 6
+				if c.Quick() {
+					if (pi+int(c.Seed))%3 != 0 {
+						continue
+					}
+					reps = 3
+				}
+				for r := 1; r <= reps; r++ {
+					jobs = append(jobs, job{Prog: pi, Entry: []string{"eval", "path"}[(pi+r)%2], K: kBlocked, Follow: "none", Rep: r})
+				}
+				continue
+			}
 			if pi >= firstBlocking {
 				// the family of blocking constructs: cancelled once everybody is blocked (or main
 				// is busy and the workers are blocked); quick samples one program in six
